@@ -438,7 +438,7 @@ func checkLimits(r *Run, rc *RuleCtx, cl *closures, addFn *ssa.Function) {
 				if b.Op == token.NEQ {
 					nilEdge = ci.OnFalse
 				}
-				if len(nilEdge.Preds) == 1 && nilEdge.Dominates(ad.Block()) {
+				if len(nilEdge.Preds) == 1 && blockDominates(nilEdge, ad.Block()) {
 					ok = true
 				}
 			}
@@ -700,27 +700,16 @@ func checkEdgeReturnsError(r *Run, rc *RuleCtx, fn *ssa.Function, badEdge, okEdg
 		rc.Violation(fn, instrPos(badEdge.Instrs[0]), "reject edge", "the rejecting edge joins other paths: undecided")
 		return
 	}
-	n := 0
-	for _, b := range fn.Blocks {
-		if !badEdge.Dominates(b) {
-			continue
-		}
-		for _, s := range b.Succs {
-			if !badEdge.Dominates(s) {
-				rc.Violation(fn, instrPos(b.Instrs[len(b.Instrs)-1]), "reject edge falls through", "the edge that must reject continues with the normal path")
-			}
-		}
-		if ret, ok := b.Instrs[len(b.Instrs)-1].(*ssa.Return); ok {
-			n++
-			c := &PathCtx{K: newKeyer(), assign: map[string]bool{}, phiSel: map[*ssa.Phi]ssa.Value{}, P: p}
-			if idx < 0 || c.NilState(ret.Results[idx]) != -1 {
-				rc.Violation(fn, instrPos(ret), "reject edge", "the edge that must reject does not return a non-nil error")
-			}
-		}
-	}
-	if n == 0 {
+	ok, n, bad := allPathsReject(p, fn, badEdge)
+	switch {
+	case n == 0:
 		rc.Violation(fn, instrPos(badEdge.Instrs[0]), "reject edge", "the edge that must reject does not return")
+	case bad != nil:
+		rc.Violation(fn, instrPos(bad), "reject edge falls through", "the edge that must reject reaches a return that may report success (it continues with the normal path, or does not return a non-nil error)")
+	case !ok:
+		rc.Violation(fn, instrPos(badEdge.Instrs[0]), "reject edge", "undecided (path exploration exhausted)")
 	}
+	_ = idx
 	_ = okEdge
 }
 
@@ -812,7 +801,7 @@ func checkFPGuard(r *Run, rc *RuleCtx, mi *mutInfo) {
 		if sc := staticCallee(in); sc != nil && p.isLibFn(sc) && mi.mutator(sc) {
 			mut = true
 		}
-		if mut && guardBlock != nil && !guardBlock.Dominates(b) {
+		if mut && guardBlock != nil && !blockDominates(guardBlock, b) {
 			rc.Violation(fn, instrPos(in), "mutation before the FINGERPRINT guard", "the message is changed before the FINGERPRINT test")
 		}
 	})
@@ -840,9 +829,12 @@ func fullRangeLoopAllowingReturnExit(lp *Loop, S ssa.Value, ia *ssa.IndexAddr, f
 		if ex[0] == lp.Header {
 			continue
 		}
-		// other exits must end in a return without re-entering
+		// other exits must end in a return without re-entering (directly, or through the merged
+		// result of a normalised helper: every path from the exit rejects)
 		if _, isRet := ex[1].Instrs[len(ex[1].Instrs)-1].(*ssa.Return); !isRet {
-			return false
+			if ok, _, _ := allPathsReject(callerProg, fn, ex[1]); !ok {
+				return false
+			}
 		}
 	}
 	return true
